@@ -40,6 +40,9 @@ func c03Routes(proto string) []routeSpec {
 		{Key: "nocluster", Cluster: "cl-does-not-exist", Extra: jmap{"timeout": "800ms"}},
 		{Key: "empty", Cluster: "cl-$P-empty", Extra: jmap{"timeout": "800ms"}},
 		{Key: "dead", Cluster: "cl-$P-dead", Extra: jmap{"timeout": "800ms"}},
+		// a dead address and a live host: a connect failure is followed by a re-selection (retried also without retry_on)
+		{Key: "mix", Cluster: "cl-$P-mix", Extra: jmap{"timeout": "900ms", "retry_policy": jmap{"retry_on": false, "num_retries": 2}}},
+		{Key: "mixon", Cluster: "cl-$P-mix", Extra: jmap{"timeout": "900ms", "retry_policy": jmap{"retry_on": true, "num_retries": 3}}},
 	}
 }
 
@@ -56,7 +59,10 @@ var c03Plans = []string{"ok", "ok", "s503", "s404", "d60:ok", "stall", "close", 
 var c03RetryPlans = []string{"ok", "s503|ok", "s503|s503|ok", "s503", "stall|ok", "stall", "close|ok", "close", "rst|rst|ok", "d300:ok|ok", "d300:s503|d300:ok", "half|ok", "s503|stall", "stall|close|ok"}
 
 // plans for the retry route WITHOUT a per-try timeout: the retry is decided from the response status / reset reason only
-var c03Retry0Plans = []string{"ok", "s503|ok", "s503|s503|ok", "s503|stall", "s503|d1200:ok", "close|ok", "s503|close|ok", "s503"}
+var c03Retry0Plans = []string{"ok", "s503|ok", "s503|s503|ok", "s503|stall", "s503|d1200:ok", "close|ok", "s503|close|ok", "s503", "close|stall", "rst|stall", "close|close|stall"}
+
+// plans for the routes into the cluster with a dead address: the attempts the live host sees (a connect failure leaves no trace there)
+var c03MixPlans = []string{"ok", "stall", "d1200:ok", "close", "s503", "close|stall", "s503|stall", "d60:ok"}
 
 func c03Judge(c *lab.Ctx, cs c03Case, ev clEvent, e *engine, where string) {
 	sig := fmt.Sprintf("%s/route=%s/plan=%s", cs.proto, cs.key, planClass(cs.plan))
@@ -126,7 +132,7 @@ func planClass(p string) string {
 }
 
 func c03Engine(c *lab.Ctx) {
-	c.Rule("running MOSN, 3 protocol pairings x routes {fast, retry(per-try 200ms, 2 retries), unknown cluster, empty cluster, dead host, no route} x per-attempt upstream plans {ok,5xx,4xx,delay,stall,close,rst,half,late,big,answer + go-away announcement} x {two-way, abandoned by client}; 8 concurrent clients per protocol; distinct = (protocol, route, plan class, client outcome)")
+	c.Rule("running MOSN, 3 protocol pairings x routes {fast, retry(per-try 200ms, 2 retries), retry without per-try timeout, unknown cluster, empty cluster, dead host, dead address + live host (with / without retry_on), no route} x per-attempt upstream plans {ok,5xx,4xx,delay,stall,close,rst,half,late,big,answer + go-away announcement} x {two-way, abandoned by client}; 8 concurrent clients per protocol; distinct = (protocol, route, plan class, client outcome)")
 	e, err := newEngine(c, engineProtos, c03Routes, nil, nil)
 	if err != nil {
 		c.Require("mosn started", false, err.Error())
@@ -161,6 +167,8 @@ func c03Engine(c *lab.Ctx) {
 						cs.key, cs.plan = "retry", c03RetryPlans[crng.Intn(len(c03RetryPlans))]
 					case 6:
 						cs.key, cs.plan = "retry0", c03Retry0Plans[crng.Intn(len(c03Retry0Plans))]
+					case 7:
+						cs.key, cs.plan = crng.PickStr("mix", "mixon"), c03MixPlans[crng.Intn(len(c03MixPlans))]
 					default:
 						cs.key, cs.plan = "fast", c03Plans[crng.Intn(len(c03Plans))]
 					}
